@@ -29,7 +29,28 @@
    AddObjectAt grew it); AddObjectAt(0) is Undefined; a Listener flag byte other than 0
    (notify/wait/var/end lists) is not modelled (Undefined); objects are flat (a body
    is a list of leaves: no object inside a body).  Strings are read into fresh
-   (empty) destinations, so "length 0 leaves the destination untouched" reads "". *)
+   (empty) destinations, so "length 0 leaves the destination untouched" reads "".
+
+   SCRIPT VARIABLES (ScriptVariable::Archive / ArchiveInternal, ScriptArrayHolder,
+   ScriptConstArrayHolder, ScriptPointer in src/Script/ScriptVariable.cpp,
+   StringDictionary::ArchiveString, con::set::Archive, con::Archive(Container)): a leaf
+   LVar is one ScriptVariable in archive order: the flat list of its tokens = the variable
+   itself followed (for a new array / constant array) by the variables it contains, keys
+   and values alternating, depth first.  Every variable enters itself in classpointerList
+   (ArchiveObjectPosition(this)), writes its type byte and then: nothing | string | Int64
+   | Float | Char | dictionary string (flag byte + string) | weak / plain pointer |
+   holder: Boolean newRef = !ObjectPositionExists(holder); new: position of the holder,
+   UInt32 refCount, (array) UInt32 tableLength, threshold, count, UInt16 tableLengthIndex,
+   then 2*count variables; (constant array) UInt32 size, then size variables; (pointer)
+   UInt32 number + that many plain pointers; shared: plain pointer to the holder |
+   Vector: ArchiveElements writes the 12 bytes three times.
+   The READER of a variable is driven by the bytes (type byte, flags, counts), not by the
+   host: the host only supplies the identity labels of the objects the reader creates
+   (in order) - this is the shape of an LVar.  Abstracted: the hash table rebuilt by
+   con::set::Archive (an array is the ordered list of its entries; tableLength 0 with
+   entries is Undefined: hash % 0), allocation, a type byte above 13 and a newRef byte
+   other than 0/1 are Undefined; with caf = false a short read inside a variable is
+   Undefined at once. *)
 From Coq Require Import ZArith NArith List Bool.
 From Morfuse Require Import Base.Arr.
 Import ListNotations.
@@ -95,13 +116,38 @@ Definition pwidth (k : pkind) : nat :=
 
 (* ------------------------------------------------------------------------- items *)
 
+(* script variables: T = what a pointer is (option N when written, pending index when read) *)
+Inductive vprim := VInt | VFloat | VChar.
+Inductive vptr := VListener | VRef | VContainer | VSafeContainer.
+Inductive vhold := HArray | HConstArray | HPointer.
+
+Inductive tbody (T : Type) :=
+| TNone
+| TStr (bs : list N)
+| TPrim (k : vprim) (v : N)
+| TCStr (s : option (list N))                 (* dictionary string; None = const_str 0 *)
+| TPtr (k : vptr) (t : T)
+| TArrayNew (hid rc tl thr tli count : N)     (* 2 * count variables follow *)
+| TConstArrayNew (hid rc size : N)            (* size variables follow *)
+| TPointerNew (pid : N) (targets : list T)
+| THolderRef (k : vhold) (h : T)              (* a holder that is already in the archive *)
+| TVector (bs : list N).
+Arguments TNone {T}. Arguments TStr {T}. Arguments TPrim {T}. Arguments TCStr {T}.
+Arguments TPtr {T}. Arguments TArrayNew {T}. Arguments TConstArrayNew {T}.
+Arguments TPointerNew {T}. Arguments THolderRef {T}. Arguments TVector {T}.
+
+Record tok (T : Type) := mkTok { t_vid : N; t_body : tbody T }.
+Arguments mkTok {T}. Arguments t_vid {T}. Arguments t_body {T}.
+
 (* values are unsigned bit patterns (signed integers, floats: their bytes) *)
 Inductive leaf :=
 | LPrim (k : pkind) (v : N)
 | LRaw (bs : list N)
 | LStr (bs : list N)
 | LPtr (safe : bool) (target : option N)
-| LPos (id : N).
+| LPos (id : N)
+| LVar (key : option (option (list N))) (toks : list (tok (option N))).
+    (* key: None = ArchiveInternal; Some k = Archive (the variable's key k first) *)
 
 Inductive item :=
 | ILeaf (l : leaf)
@@ -142,6 +188,110 @@ Definition w_str (bs : list N) : list N :=
   rec_bytes T_Size (le_encode 8 (nlen bs)) ++
   match bs with [] => [] | _ => rec_bytes T_Raw bs end.
 
+(* ------------------------------------------------------------- script variables *)
+
+Definition memN (x : N) (l : list N) : bool := existsb (N.eqb x) l.
+
+(* enum variableType_e *)
+Definition vtype {T} (b : tbody T) : N :=
+  match b with
+  | TNone => 0
+  | TStr _ => 1
+  | TPrim VInt _ => 2
+  | TPrim VFloat _ => 3
+  | TPrim VChar _ => 4
+  | TCStr _ => 5
+  | TPtr VListener _ => 6
+  | TPtr VRef _ => 7
+  | TArrayNew _ _ _ _ _ _ => 8
+  | THolderRef HArray _ => 8
+  | TConstArrayNew _ _ _ => 9
+  | THolderRef HConstArray _ => 9
+  | TPtr VContainer _ => 10
+  | TPtr VSafeContainer _ => 11
+  | TPointerNew _ _ => 12
+  | THolderRef HPointer _ => 12
+  | TVector _ => 13
+  end.
+
+Definition vp_tag (k : vprim) : N :=
+  match k with VInt => T_Long | VFloat => T_Float | VChar => T_Char end.
+Definition vp_width (k : vprim) : nat :=
+  match k with VInt => 8 | VFloat => 4 | VChar => 1 end%nat.
+Definition vptr_safe (k : vptr) : bool :=
+  match k with VListener | VSafeContainer => true | VRef | VContainer => false end.
+
+Definition ptr_tag_of (safe : bool) : N := if safe then T_SafePointer else T_ObjectPointer.
+
+Definition w_ptr (cpl : list N) (safe : bool) (t : option N) : list N * list N :=
+  match t with
+  | None => (cpl, rec_bytes (ptr_tag_of safe) (le_encode 4 NULLP))
+  | Some x => let (cpl', i) := add_unique cpl x in (cpl', rec_bytes (ptr_tag_of safe) (le_encode 4 i))
+  end.
+
+Fixpoint w_ptrs (cpl : list N) (ts : list (option N)) : list N * list N :=
+  match ts with
+  | [] => (cpl, [])
+  | t :: r =>
+      let (cpl1, b1) := w_ptr cpl false t in
+      let (cpl2, b2) := w_ptrs cpl1 r in
+      (cpl2, b1 ++ b2)
+  end.
+
+(* StringDictionary::ArchiveString *)
+Definition w_cstr (s : option (list N)) : list N :=
+  match s with
+  | None => rec_bytes T_Byte [0]
+  | Some bs => rec_bytes T_Byte [1] ++ w_str bs
+  end.
+
+Definition u32 (v : N) : list N := rec_bytes T_UInteger (le_encode 4 v).
+
+(* X::Archive(arc, holder*&): newRef = !arc.ObjectPositionExists(holder) *)
+Definition w_holder (cpl : list N) (hid : N) (content : list N -> list N * list N) : list N * list N :=
+  if memN hid cpl then
+    let (cpl1, b) := w_ptr cpl false (Some hid) in (cpl1, rec_bytes T_Boolean [0] ++ b)
+  else
+    let (cpl1, j) := add_unique cpl hid in
+    let (cpl2, b) := content cpl1 in
+    (cpl2, rec_bytes T_Boolean [1] ++ rec_bytes T_Position (le_encode 4 j) ++ b).
+
+(* ScriptVariable::ArchiveInternal without the variables it contains *)
+Definition write_tok (cpl : list N) (t : tok (option N)) : list N * list N :=
+  let (cpl1, i) := add_unique cpl (t_vid t) in
+  let pre := rec_bytes T_Position (le_encode 4 i) ++ rec_bytes T_Byte [vtype (t_body t)] in
+  let (cpl2, b) :=
+    match t_body t with
+    | TNone => (cpl1, [])
+    | TStr bs => (cpl1, w_str bs)
+    | TPrim k v => (cpl1, rec_bytes (vp_tag k) (le_encode (vp_width k) v))
+    | TCStr s => (cpl1, w_cstr s)
+    | TPtr k x => w_ptr cpl1 (vptr_safe k) x
+    | TArrayNew hid rc tl thr tli count =>
+        w_holder cpl1 hid (fun c => (c, u32 rc ++ u32 tl ++ u32 thr ++ u32 count ++
+                                        rec_bytes T_UShort (le_encode 2 tli)))
+    | TConstArrayNew hid rc size =>
+        w_holder cpl1 hid (fun c => (c, u32 rc ++ u32 size))
+    | TPointerNew pid ts =>
+        w_holder cpl1 pid (fun c => let (c', b) := w_ptrs c ts in (c', u32 (nlen ts) ++ b))
+    | THolderRef _ None => (cpl1, [])                 (* a null holder cannot be archived *)
+    | THolderRef _ (Some hid) => w_holder cpl1 hid (fun c => (c, []))
+    | TVector bs => (cpl1, rec_bytes T_Raw bs ++ rec_bytes T_Raw bs ++ rec_bytes T_Raw bs)
+    end in
+  (cpl2, pre ++ b).
+
+Fixpoint write_toks (cpl : list N) (ts : list (tok (option N))) : list N * list N :=
+  match ts with
+  | [] => (cpl, [])
+  | t :: r =>
+      let (cpl1, b1) := write_tok cpl t in
+      let (cpl2, b2) := write_toks cpl1 r in
+      (cpl2, b1 ++ b2)
+  end.
+
+Definition w_key (key : option (option (list N))) : list N :=
+  match key with None => [] | Some k => w_cstr k end.
+
 Definition write_leaf (cpl : list N) (l : leaf) : list N * list N :=
   match l with
   | LPrim k v => (cpl, rec_bytes (ptag k) (le_encode (pwidth k) v))
@@ -155,6 +305,8 @@ Definition write_leaf (cpl : list N) (l : leaf) : list N * list N :=
   | LPos id =>
       let (cpl', i) := add_unique cpl id in
       (cpl', rec_bytes T_Position (le_encode 4 i))
+  | LVar key toks =>
+      let (cpl', b) := write_toks cpl toks in (cpl', w_key key ++ b)
   end.
 
 Fixpoint write_leaves (cpl : list N) (ls : list leaf) : list N * list N :=
@@ -295,11 +447,15 @@ Fixpoint run {A} (caf : bool) (p : prog A) (s : stream) : res A :=
 
 (* ------------------------------------------------------------- reader: the archiver *)
 
+(* a pointer of a script variable before Close: null or an entry of fixupList *)
+Inductive ptgt := PN | PP (idx : N).
+
 (* what has been read for a leaf before Close *)
 Inductive pleaf :=
 | PL (l : leaf)
 | PPending (safe : bool) (idx : N)      (* an entry of fixupList *)
-| PGarbage.
+| PGarbage
+| PVar (key : option (option (list N))) (toks : list (tok ptgt)).
 
 Inductive pitem :=
 | PLeaf (l : pleaf)
@@ -322,6 +478,153 @@ Definition r_str {A} (c : pclass) (cont : rd -> prog A) : prog A :=
         if len =? 0 then cont (Bytes [])
         else ReadTag T_Raw (Read c len cont)
     end)).
+
+(* ------------------------------------------------------ reading script variables *)
+
+(* ArchiveObjectPointer / ArchiveSafePointer when loading *)
+Definition r_ptr {A} (safe : bool) (st : rst) (k : ptgt -> prog A) : prog A :=
+  ReadTag (ptr_tag_of safe) (Read POther 4 (fun d =>
+    match d with
+    | Garbage => Undefined
+    | Bytes l =>
+        let idx := le_decode l in
+        if idx =? NULLP then k PN
+        else if (idx =? 0) || (r_num st <? idx) then Undefined
+        else k (PP idx)
+    end)).
+
+(* the pointers of a ScriptPointer: the count comes from the archive, the host list
+   bounds the recursion *)
+Fixpoint r_ptrs {A} (labs : list (option N)) (n : N) (st : rst) (k : list ptgt -> prog A) : prog A :=
+  if n =? 0 then k []
+  else match labs with
+       | [] => Undefined
+       | _ :: labs' => r_ptr false st (fun p => r_ptrs labs' (n - 1) st (fun ps => k (p :: ps)))
+       end.
+
+Definition r_num32 {A} (k : N -> prog A) : prog A :=
+  ReadTag T_UInteger (Read POther 4 (fun d =>
+    match d with Garbage => Undefined | Bytes l => k (le_decode l) end)).
+
+(* ArchiveObjectPosition(obj) when loading *)
+Definition r_position {A} (st : rst) (id : N) (k : rst -> prog A) : prog A :=
+  ReadTag T_Position (Read POther 4 (fun d =>
+    match d with
+    | Garbage => Undefined
+    | Bytes l => match add_at st (le_decode l) id with None => Undefined | Some st' => k st' end
+    end)).
+
+(* StringDictionary::ArchiveString when loading *)
+Definition r_cstr {A} (k : option (list N) -> prog A) : prog A :=
+  ReadTag T_Byte (Read POther 1 (fun d =>
+    match d with
+    | Garbage => Undefined
+    | Bytes l =>
+        if le_decode l =? 0 then k None
+        else r_str POther (fun d' => match d' with Bytes bs => k (Some bs) | Garbage => Undefined end)
+    end)).
+
+(* the identity labels the host supplies for one variable *)
+Definition lab_hid (b : tbody (option N)) : N :=
+  match b with
+  | TArrayNew hid _ _ _ _ _ => hid
+  | TConstArrayNew hid _ _ => hid
+  | TPointerNew pid _ => pid
+  | THolderRef _ (Some hid) => hid
+  | _ => 0
+  end.
+
+Definition lab_targets (b : tbody (option N)) : list (option N) :=
+  match b with TPointerNew _ ts => ts | _ => [] end.
+
+(* Boolean newRef of X::Archive(arc, holder*&) when loading *)
+Definition r_newref {A} (k : bool -> prog A) : prog A :=
+  ReadTag T_Boolean (Read POther 1 (fun d =>
+    match d with
+    | Bytes [0] => k false
+    | Bytes [1] => k true
+    | _ => Undefined
+    end)).
+
+Definition r_raw12 {A} (k : list N -> prog A) : prog A :=
+  ReadTag T_Raw (Read POther 12 (fun d => match d with Bytes l => k l | Garbage => Undefined end)).
+
+(* ScriptVariable::ArchiveInternal when loading, without the variables it contains *)
+Definition r_tok1 {A} (lb : tok (option N)) (st : rst) (k : rst -> tok ptgt -> prog A) : prog A :=
+  r_position st (t_vid lb) (fun st1 =>
+    ReadTag T_Byte (Read POther 1 (fun d =>
+      match d with
+      | Garbage => Undefined
+      | Bytes l =>
+          let ty := le_decode l in
+          let ret := fun (s : rst) (b : tbody ptgt) => k s (mkTok (t_vid lb) b) in
+          let hid := lab_hid (t_body lb) in
+          let holder := fun (hk : vhold) (fresh : rst -> prog A) =>
+            r_newref (fun nr =>
+              if nr then r_position st1 hid fresh
+              else r_ptr false st1 (fun p => ret st1 (THolderRef hk p))) in
+          if ty =? 0 then ret st1 TNone
+          else if ty =? 1 then
+            r_str POther (fun d' => match d' with Bytes bs => ret st1 (TStr bs) | Garbage => Undefined end)
+          else if ty =? 2 then
+            ReadTag T_Long (Read POther 8 (fun d' =>
+              match d' with Bytes b => ret st1 (TPrim VInt (le_decode b)) | Garbage => Undefined end))
+          else if ty =? 3 then
+            ReadTag T_Float (Read POther 4 (fun d' =>
+              match d' with Bytes b => ret st1 (TPrim VFloat (le_decode b)) | Garbage => Undefined end))
+          else if ty =? 4 then
+            ReadTag T_Char (Read POther 1 (fun d' =>
+              match d' with Bytes b => ret st1 (TPrim VChar (le_decode b)) | Garbage => Undefined end))
+          else if ty =? 5 then r_cstr (fun s => ret st1 (TCStr s))
+          else if ty =? 6 then r_ptr true st1 (fun p => ret st1 (TPtr VListener p))
+          else if ty =? 7 then r_ptr false st1 (fun p => ret st1 (TPtr VRef p))
+          else if ty =? 8 then
+            holder HArray (fun st2 =>
+              r_num32 (fun rc => r_num32 (fun tl => r_num32 (fun thr => r_num32 (fun count =>
+                ReadTag T_UShort (Read POther 2 (fun d' =>
+                  match d' with
+                  | Garbage => Undefined
+                  | Bytes b =>
+                      if (tl =? 0) && (0 <? count) then Undefined           (* hash % tableLength *)
+                      else ret st2 (TArrayNew hid rc tl thr (le_decode b) count)
+                  end)))))))
+          else if ty =? 9 then
+            holder HConstArray (fun st2 =>
+              r_num32 (fun rc => r_num32 (fun size => ret st2 (TConstArrayNew hid rc size))))
+          else if ty =? 10 then r_ptr false st1 (fun p => ret st1 (TPtr VContainer p))
+          else if ty =? 11 then r_ptr true st1 (fun p => ret st1 (TPtr VSafeContainer p))
+          else if ty =? 12 then
+            holder HPointer (fun st2 =>
+              r_num32 (fun num =>
+                r_ptrs (lab_targets (t_body lb)) num st2 (fun ps => ret st2 (TPointerNew hid ps))))
+          else if ty =? 13 then
+            r_raw12 (fun _ => r_raw12 (fun _ => r_raw12 (fun b => ret st1 (TVector b))))
+          else Undefined
+      end))).
+
+Definition kids {T} (b : tbody T) : N :=
+  match b with
+  | TArrayNew _ _ _ _ _ count => 2 * count
+  | TConstArrayNew _ _ size => size
+  | _ => 0
+  end.
+
+(* pending = how many variables are still to be read; one host label per variable *)
+Fixpoint r_toks {A} (labs : list (tok (option N))) (pending : N) (st : rst)
+         (cont : rst -> list (tok ptgt) -> prog A) : prog A :=
+  if pending =? 0 then cont st []
+  else match labs with
+       | [] => Undefined
+       | lb :: labs' =>
+           r_tok1 lb st (fun st1 t =>
+             r_toks labs' (pending - 1 + kids (t_body t)) st1 (fun st2 ts => cont st2 (t :: ts)))
+       end.
+
+Definition r_key {A} (key : option (option (list N))) (k : option (option (list N)) -> prog A) : prog A :=
+  match key with
+  | None => k None
+  | Some _ => r_cstr (fun s => k (Some s))
+  end.
 
 Definition r_leaf {A} (st : rst) (sh : leaf) (cont : rst -> pleaf -> prog A) : prog A :=
   match sh with
@@ -354,6 +657,8 @@ Definition r_leaf {A} (st : rst) (sh : leaf) (cont : rst -> pleaf -> prog A) : p
             | Some st' => cont st' (PL (LPos id))
             end
         end))
+  | LVar key labs =>
+      r_key key (fun key' => r_toks labs 1 st (fun st' ts => cont st' (PVar key' ts)))
   end.
 
 Fixpoint r_leaves {A} (shs : list leaf) (st : rst) (cont : rst -> list pleaf -> prog A) : prog A :=
@@ -465,6 +770,48 @@ Definition reader (vor : bool) (h : hdr) (shs : list item) : prog (rst * list pi
 
 (* ------------------------------------------------------------------------ Close *)
 
+Definition close_tgt (st : rst) (p : ptgt) : option (option N) :=
+  match p with
+  | PN => Some None
+  | PP idx =>
+      if (idx =? 0) || (r_num st <? idx) then None          (* ObjectAt outside the list *)
+      else Some (get (r_map st) idx)
+  end.
+
+Fixpoint close_tgts (st : rst) (ps : list ptgt) : option (list (option N)) :=
+  match ps with
+  | [] => Some []
+  | p :: r =>
+      match close_tgt st p, close_tgts st r with
+      | Some t, Some ts => Some (t :: ts)
+      | _, _ => None
+      end
+  end.
+
+Definition close_body (st : rst) (b : tbody ptgt) : option (tbody (option N)) :=
+  match b with
+  | TNone => Some TNone
+  | TStr bs => Some (TStr bs)
+  | TPrim k v => Some (TPrim k v)
+  | TCStr s => Some (TCStr s)
+  | TPtr k p => match close_tgt st p with Some t => Some (TPtr k t) | None => None end
+  | TArrayNew hid rc tl thr tli count => Some (TArrayNew hid rc tl thr tli count)
+  | TConstArrayNew hid rc size => Some (TConstArrayNew hid rc size)
+  | TPointerNew pid ps => match close_tgts st ps with Some ts => Some (TPointerNew pid ts) | None => None end
+  | THolderRef k p => match close_tgt st p with Some t => Some (THolderRef k t) | None => None end
+  | TVector bs => Some (TVector bs)
+  end.
+
+Fixpoint close_toks (st : rst) (ts : list (tok ptgt)) : option (list (tok (option N))) :=
+  match ts with
+  | [] => Some []
+  | t :: r =>
+      match close_body st (t_body t), close_toks st r with
+      | Some b, Some ts' => Some (mkTok (t_vid t) b :: ts')
+      | _, _ => None
+      end
+  end.
+
 Definition close_leaf (st : rst) (p : pleaf) : option leaf :=
   match p with
   | PL l => Some l
@@ -472,6 +819,7 @@ Definition close_leaf (st : rst) (p : pleaf) : option leaf :=
       if (idx =? 0) || (r_num st <? idx) then None          (* ObjectAt outside the list *)
       else Some (LPtr safe (get (r_map st) idx))
   | PGarbage => None
+  | PVar key ts => match close_toks st ts with Some ts' => Some (LVar key ts') | None => None end
   end.
 
 Fixpoint close_leaves (st : rst) (ps : list pleaf) : option (list leaf) :=
@@ -519,6 +867,17 @@ Definition read (caf vor : bool) (h : hdr) (shs : list item) (bytes : list N) : 
 
 (* the shape of an item list: what the reading host program knows (kinds, Raw lengths,
    classes and identities of its objects); all values erased *)
+(* of a variable the reading host knows: the identity of the variable object and of the
+   holder object that will be created for it, and (a bound on) the length of a pointer list *)
+Definition shape_tok (t : tok (option N)) : tok (option N) :=
+  mkTok (t_vid t)
+    match t_body t with
+    | TArrayNew hid _ _ _ _ _ => TArrayNew hid 0 0 0 0 0
+    | TConstArrayNew hid _ _ => TConstArrayNew hid 0 0
+    | TPointerNew pid ts => TPointerNew pid (map (fun _ => None) ts)
+    | _ => TNone
+    end.
+
 Definition shape_leaf (l : leaf) : leaf :=
   match l with
   | LPrim k _ => LPrim k 0
@@ -526,6 +885,7 @@ Definition shape_leaf (l : leaf) : leaf :=
   | LStr _ => LStr []
   | LPtr s _ => LPtr s None
   | LPos id => LPos id
+  | LVar key toks => LVar (match key with None => None | Some _ => Some None end) (map shape_tok toks)
   end.
 
 Definition shape_item (it : item) : item :=
